@@ -125,7 +125,12 @@ func (te *objectTypeExtension) Parameters() []px.Value {
 	pts := te.baseType.typeParameters(true)
 	n := pts.Len()
 	if n > 2 {
-		return []px.Value{WrapStringPValue(te.parameters)}
+		// the named form, unless it would be read back as the value of the first parameter (initialize takes
+		// a single Hash that is an instance of the first parameter's type for a positional argument)
+		named := WrapStringPValue(te.parameters)
+		if !px.IsInstance(pts.Values()[0].(*typeParameter).Type(), named) {
+			return []px.Value{named}
+		}
 	}
 	params := make([]px.Value, 0, n)
 	top := 0
